@@ -257,12 +257,23 @@ def state_type(path, i, st):
         return "M_%s" % pname(path + (i,))
     return "S_%s_%d" % (pname(path), i)
 
-def gen_cxx(md, policy=0, introspect=False):
+def trig_cxx_type(r):
+    t = r["trig"]
+    return "KleeneEv" if t == "any" else "none" if t == "none" else "Ev%d" % t[1]
+
+def gen_cxx(md, policy=0, introspect=False, frontend="functor"):
+    """frontend: how the rows are written - "functor" (Row<> / Internal<> with functor behaviours), "basic" (row / a_row /
+    g_row / _row / irow family with member functions of the front-end; internal tables with internal<> / a_internal<> ...
+    called on the machine), "row2" (row2 / a_row2 / g_row2 / _row2 / irow2 family; behaviours are member functions of the
+    source state where it is a simple state of the machine, otherwise of the front-end)"""
     L = []
     w = L.append
     evs = user_events(md)
     w("// generated by harness/msmgen.py - do not edit")
     w("#include \"prelude.hpp\"")
+    if frontend != "functor":
+        w("#include <boost/msm/front/row2.hpp>")
+        w("#include <boost/msm/front/internal_row.hpp>")
     # events
     for e in evs:
         p = md["parents"][e]
@@ -312,6 +323,57 @@ def gen_cxx(md, policy=0, introspect=False):
         w("    template <class E, class F> void on_exit(E const& e, F& f) { H::cb(\"MX\", path(), 0, e, f); }")
         w("    template <class F, class E> void no_transition(E const& e, F& f, int s) { H::cb(\"NT\", path(), s, e, f); }")
         w("    template <class F, class E> void exception_caught(E const& e, F& f, std::exception&) { H::cb(\"EC\", path(), 0, e, f); }")
+        # member-function behaviours of the basic / row2 front-ends
+        me = "typename Def::M_%s" % name
+        def fsm_methods(r):
+            out = []
+            if r["act"] == "call":
+                out.append("    void a%d(%s const& e) { H::cb(\"A\", path(), %d, e, static_cast<%s&>(*this)); }" % (r["id"], trig_cxx_type(r), r["id"], me))
+            if r["guard"]:
+                out.append("    bool g%d(%s const& e) { return H::guard(path(), %d, e, static_cast<%s&>(*this)); }" % (r["id"], trig_cxx_type(r), r["id"], me))
+            return out
+        def state_methods(r):
+            out = []
+            if r["act"] == "call":
+                out.append("      void a%d(%s const& e) { H::cb_nf(\"A\", \"%s\", %d, e); }" % (r["id"], trig_cxx_type(r), pstr(path), r["id"]))
+            if r["guard"]:
+                out.append("      bool g%d(%s const& e) { return H::guard_nf(\"%s\", %d, e); }" % (r["id"], trig_cxx_type(r), pstr(path), r["id"]))
+            return out
+        def on_state(r):
+            """row2: is the behaviour a member of the row's source state (a simple state object of this machine)"""
+            if frontend != "row2" or r["exitpt"] is not None:
+                return False      # "row2f": the row2 family with every behaviour a member of the front-end (backmp11 keeps its
+                                  # states in a std::tuple, which row2's fusion::at_key lookup of a state object does not accept)
+            st = m["states"][r["src"]]
+            return st["sub"] is None and st["kind"] in ("simple", "term") and r["id"] % 2 == 0
+        def called(r):
+            return "S_%s_%d" % (name, r["src"]) if on_state(r) else "F_%s" % name
+        def internal_row(r, owner):
+            """an entry of an internal_transition_table written with the internal<> family; owner = class whose members are called"""
+            a, g = r["act"] == "call", r["guard"]
+            if r["act"] == "defer":
+                raise ValueError("Defer is a functor action")
+            if a and g:
+                return "msm::front::internal<%s, %s, &%s::a%d, %s, &%s::g%d>" % (cxx_trig(r), owner, owner, r["id"], owner, owner, r["id"])
+            if a:
+                return "msm::front::a_internal<%s, %s, &%s::a%d>" % (cxx_trig(r), owner, owner, r["id"])
+            if g:
+                return "msm::front::g_internal<%s, %s, &%s::g%d>" % (cxx_trig(r), owner, owner, r["id"])
+            return "msm::front::_internal<%s>" % cxx_trig(r)
+        if frontend != "functor":
+            for r in m["rows"]:
+                if not on_state(r):
+                    for l in fsm_methods(r):
+                        w(l)
+            for r in m["irows"]:
+                for l in fsm_methods(r):
+                    w(l)
+            if frontend in ("basic", "row2f"):
+                for st in m["states"]:
+                    if st["sub"] is None:
+                        for r in st["sirows"]:
+                            for l in fsm_methods(r):
+                                w(l)
         # states
         for i, st in enumerate(m["states"]):
             if st["sub"] is not None:
@@ -342,9 +404,18 @@ def gen_cxx(md, policy=0, introspect=False):
                 w("      static const char* h_owner() { return \"%s\"; } static int h_decl() { return %d; }" % (pstr(path), i))
             w("      template <class E, class F> void on_entry(E const& e, F& f) { H::cb(\"N\", F::path(), H::lib_id(F::path(), %d), e, f); }" % i)
             w("      template <class E, class F> void on_exit(E const& e, F& f) { H::cb(\"X\", F::path(), H::lib_id(F::path(), %d), e, f); }" % i)
+            if frontend == "row2":
+                for r in st["sirows"] + [x for x in m["rows"] if x["src"] == i and on_state(x)]:
+                    for l in state_methods(r):
+                        w(l)
             if st["sirows"]:
                 w("      struct internal_transition_table : mpl::vector<")
-                w(",\n".join("        msm::front::Internal<%s, %s, %s>" % (cxx_trig(r), cxx_act(r), cxx_guard(r)) for r in st["sirows"]))
+                if frontend == "functor":
+                    w(",\n".join("        msm::front::Internal<%s, %s, %s>" % (cxx_trig(r), cxx_act(r), cxx_guard(r)) for r in st["sirows"]))
+                elif frontend in ("basic", "row2f"):
+                    w(",\n".join("        " + internal_row(r, "F_%s" % name) for r in st["sirows"]))
+                else:
+                    w(",\n".join("        " + internal_row(r, "S_%s_%d" % (name, i)) for r in st["sirows"]))
                 w("      > {};")
             w("    };")
         # submachine back-end types
@@ -369,12 +440,48 @@ def gen_cxx(md, policy=0, introspect=False):
                 subname = pname(path + (r["src"],))
                 return "typename M_%s::template exit_pt<typename Def::F_%s::S_%s_%d>" % (subname, subname, subname, r["exitpt"])
             return sty(r["src"])
+        def basic_row(r):
+            a, g, internal = r["act"] == "call", r["guard"], r["tgt"] == "none"
+            if r["act"] == "defer":
+                raise ValueError("Defer is a functor action")
+            base = "typename msm::front::state_machine_def<F_%s>::template " % name
+            fa, fg = "&F_%s::a%d" % (name, r["id"]), "&F_%s::g%d" % (name, r["id"])
+            if internal:
+                kind = "irow" if a and g else "a_irow" if a else "g_irow" if g else "_irow"
+                args = [src_type(r), cxx_trig(r)]
+            else:
+                kind = "row" if a and g else "a_row" if a else "g_row" if g else "_row"
+                args = [src_type(r), cxx_trig(r), tgt_type(r)]
+            return base + kind + "<" + ", ".join(args + ([fa] if a else []) + ([fg] if g else [])) + ">"
+        def row2_row(r):
+            a, g, internal = r["act"] == "call", r["guard"], r["tgt"] == "none"
+            if r["act"] == "defer":
+                raise ValueError("Defer is a functor action")
+            c = called(r)
+            ca, cg = [c, "&%s::a%d" % (c, r["id"])], [c, "&%s::g%d" % (c, r["id"])]
+            if internal:
+                if not a and not g:
+                    return "typename msm::front::state_machine_def<F_%s>::template _irow<%s, %s>" % (name, src_type(r), cxx_trig(r))
+                kind = "irow2" if a and g else "a_irow2" if a else "g_irow2"
+                args = [src_type(r), cxx_trig(r)]
+            else:
+                kind = "row2" if a and g else "a_row2" if a else "g_row2" if g else "_row2"
+                args = [src_type(r), cxx_trig(r), tgt_type(r)]
+            return "msm::front::" + kind + "<" + ", ".join(args + (ca if a else []) + (cg if g else [])) + ">"
         w("    struct transition_table : mpl::vector<")
-        w(",\n".join("      Row<%s, %s, %s, %s, %s>" % (src_type(r), cxx_trig(r), tgt_type(r), cxx_act(r), cxx_guard(r)) for r in m["rows"]))
+        if frontend == "functor":
+            w(",\n".join("      Row<%s, %s, %s, %s, %s>" % (src_type(r), cxx_trig(r), tgt_type(r), cxx_act(r), cxx_guard(r)) for r in m["rows"]))
+        elif frontend == "basic":
+            w(",\n".join("      " + basic_row(r) for r in m["rows"]))
+        else:
+            w(",\n".join("      " + row2_row(r) for r in m["rows"]))
         w("    > {};")
         if m["irows"]:
             w("    struct internal_transition_table : mpl::vector<")
-            w(",\n".join("      msm::front::Internal<%s, %s, %s>" % (cxx_trig(r), cxx_act(r), cxx_guard(r)) for r in m["irows"]))
+            if frontend == "functor":
+                w(",\n".join("      msm::front::Internal<%s, %s, %s>" % (cxx_trig(r), cxx_act(r), cxx_guard(r)) for r in m["irows"]))
+            else:
+                w(",\n".join("      " + internal_row(r, "F_%s" % name) for r in m["irows"]))
             w("    > {};")
         expl = [i for i, st in enumerate(m["states"]) if st.get("explicit_creation")]
         if expl:
@@ -458,7 +565,7 @@ def cxx_guard(r):
 
 def supported(md, cfgname):
     """is the definition inside what the configuration's library accepts (compiles)"""
-    base = cfgname.split(":")[0]
+    base = cfgname.split(":")[0].split("@")[0]
     for path, m in walk(md["root"]):
         if len(m["rows"]) > 20 or len(m["irows"]) > 20 or any(len(st["sirows"]) > 20 for st in m["states"]):
             return False      # the harness writes tables as mpl::vector (20 rows)
@@ -484,7 +591,7 @@ def adapt(md, cfgname):
     if supported(md, cfgname):
         return md
     md2 = copy.deepcopy(md)
-    base = cfgname.split(":")[0]
+    base = cfgname.split(":")[0].split("@")[0]
     if base in ("back_fct", "mp11_fct", "mp11_fpa", "back11"):
         # replace Kleene triggers and drop the inheritance between event types
         md2["parents"] = [None] * len(md2["parents"])
@@ -501,6 +608,6 @@ def adapt(md, cfgname):
 
 def adapt_ops(ops, cfgname):
     """operations that only one engine offers are replaced for the others: move construction exists for backmp11 only"""
-    if cfgname.split(":")[0].startswith("mp11"):
+    if cfgname.split(":")[0].split("@")[0].startswith("mp11"):
         return ops
     return [("copy", o[1], o[2]) if o[0] == "move" else o for o in ops]
